@@ -313,6 +313,18 @@ def install():
     Scheduler.INTERVAL_MAIN_LOOP = 0.0
     Scheduler.INTERVAL_MAIN_LOOP_QUICK = 0.0
 
+    # the reload command's wait-for-submission loop blocks the main loop:
+    # keep the job world running from inside it
+    orig_pqtm = Scheduler.process_queued_task_messages
+
+    @functools.wraps(orig_pqtm)
+    def process_queued_task_messages(self):
+        if DRV is not None and self.reload_pending == (
+                'waiting for pending tasks to submit'):
+            DRV._safe(DRV.inner_tick, self)
+        return orig_pqtm(self)
+    Scheduler.process_queued_task_messages = process_queued_task_messages
+
     # stall decision point (C03: judged on the pool as it was when the
     # scheduler decided, not at the end of the iteration)
     orig_cws = Scheduler.check_workflow_stalled
